@@ -40,6 +40,12 @@ func (dec *yamlDecoder) processReadStream(reader *bufio.Reader) (io.Reader, stri
 	for {
 		peekBytes, err := reader.Peek(4)
 		if errors.Is(err, io.EOF) {
+			// fewer than four bytes are left: last short comment lines (`#b`) still belong to the header
+			for commentLineRegEx.MatchString(string(peekBytes)) || strings.HasPrefix(string(peekBytes), "\n") {
+				line, _ := reader.ReadString('\n')
+				sb.WriteString(line)
+				peekBytes, _ = reader.Peek(4)
+			}
 			// EOF are handled else where..
 			return reader, sb.String(), nil
 		} else if err != nil {
